@@ -185,8 +185,8 @@ Example C06_nonvacuous_gfp :
 Proof. repeat split; vm_compute; reflexivity. Qed.
 
 (* two datasets with the ns-profile function and mean_n_sig_0 = 3: the second
-   trial's evaluation equals the one on freshly built objects and differs
-   from the first trial's *)
+   trial's evaluation equals the one on freshly built objects and is computed
+   from the second trial's data (provenance element 8: data id of dataset 0) *)
 Example C06_nonvacuous_profile :
   let W := wfree 100 100 100 400 in
   let C := mkcfg 0 0 0 true false 0 false in
@@ -196,6 +196,8 @@ Example C06_nonvacuous_profile :
     = [(0, 0); (0, 0); (1, 1); (1, 1); (1, 1)] /\
   nth 3 (mobservations W C MW MC (minit W C MW 7) [MInit W 1 2; MEval W 5 250; MInit W 3 4; MEval W 5 250]) (MNone W MW)
     = nth 1 (mobservations W C MW MC (minit W C MW 7) [MInit W 3 4; MEval W 5 250]) (MNone W MW) /\
-  nth 1 (mobservations W C MW MC (minit W C MW 7) [MInit W 1 2; MEval W 5 250]) (MNone W MW)
-    <> nth 1 (mobservations W C MW MC (minit W C MW 7) [MInit W 3 4; MEval W 5 250]) (MNone W MW).
-Proof. repeat split; try (vm_compute; reflexivity). vm_compute. discriminate. Qed.
+  (fun o : mobs W MW => match o with MEvalO _ _ (Ok l) => nth 8 (l : list Z) 0 | _ => 0 end)
+    (nth 1 (mobservations W C MW MC (minit W C MW 7) [MInit W 1 2; MEval W 5 250]) (MNone W MW)) = 1 /\
+  (fun o : mobs W MW => match o with MEvalO _ _ (Ok l) => nth 8 (l : list Z) 0 | _ => 0 end)
+    (nth 1 (mobservations W C MW MC (minit W C MW 7) [MInit W 3 4; MEval W 5 250]) (MNone W MW)) = 3.
+Proof. repeat split; vm_compute; reflexivity. Qed.
